@@ -99,6 +99,15 @@ def random_scenario(rng: random.Random, nsims=(2, 4), nconns=(1, 5), until=(2, 4
     scn = S.normalize(scn)
     if rng.random() < 0.12:
         scn = S.rename_sids(scn)  # simulator ids with unusual characters
+    for x in scn["sims"]:
+        # hybrid simulators whose participating entities are children (model K, usual roles) of entities of a model M that gives the
+        # same attribute names the opposite roles
+        if x["type"] == "hybrid" and rng.random() < 0.15 and not x.get("any_inputs") and not x.get("meta"):
+            x["children"] = "swapped_parent"
+    if rng.random() < 0.12:
+        scn["query_before_run"] = True  # World.get_data() on the sources before run() (see drive.execute)
+    if any(x["gpath"] for x in scn["sims"]) and rng.random() < 0.2:
+        scn["group_cm"] = rng.choice(["upfront", "decorator"])  # (see drive.build_world)
     if rng.random() < 0.2:
         # attributes of the SAME name on both sides (every model of the harness lists its outputs among its attributes): such a
         # connection is written connect(a, b, 'p') / connect_one(a, b, 'p') - the destination name is omitted
